@@ -93,14 +93,13 @@ def _merge_phases(pha_tpi, pha_tnpi):
     # Create new phase series, using trough pi for decaying periods & trough -pi for rising periods
     pha = np.array([pha_tpi[idx] if diffs[idx] < 0 else pha for idx, pha in enumerate(pha_tnpi)])
 
+    # Interpolation is flat outside of the first and last empirical phase timepoints
+    empirical_idxs = np.flatnonzero((np.diff(pha_tnpi) != 0) | (np.diff(pha_tpi) != 0))
+
     # Assign the periods before the first empirical phase timepoint to NaN
-    diffs = np.diff(pha)
-    first_empirical_idx = next(idx for idx, xi in enumerate(diffs) if xi > 0)
-    pha[:first_empirical_idx] = np.nan
+    pha[:empirical_idxs[0]] = np.nan
 
     # Assign the periods after the last empirical phase timepoint to NaN
-    diffs = np.diff(pha)
-    last_empirical_idx = next(idx for idx, xi in enumerate(diffs[::-1]) if xi > 0)
-    pha[-last_empirical_idx + 1:] = np.nan
+    pha[empirical_idxs[-1] + 2:] = np.nan
 
     return pha
